@@ -30,25 +30,38 @@ func AcquireDirLock(dir string, fs vfs.FS) (*DirLock, error) {
 		return nil, err
 	}
 	lockPath := filepath.Join(dir, "LOCK")
-	f, err := fs.OpenFileHandle(lockPath, os.O_CREATE|os.O_RDWR, 0o600)
-	if err != nil {
-		return nil, err
-	}
+	var f vfs.File
 	success := false
 	defer func() {
-		if !success {
+		if !success && f != nil {
 			_ = f.Close()
 		}
 	}()
-	fd, ok := vfs.FileFD(f)
-	if !ok {
-		return nil, fmt.Errorf("dirlock: file %q does not expose descriptor", lockPath)
-	}
-	if err := syscall.Flock(int(fd), syscall.LOCK_EX|syscall.LOCK_NB); err != nil {
-		if errors.Is(err, syscall.EWOULDBLOCK) {
-			return nil, fmt.Errorf("dirlock: directory %q already in use", dir)
+	for {
+		var err error
+		f, err = fs.OpenFileHandle(lockPath, os.O_CREATE|os.O_RDWR, 0o600)
+		if err != nil {
+			return nil, err
 		}
-		return nil, err
+		fd, ok := vfs.FileFD(f)
+		if !ok {
+			return nil, fmt.Errorf("dirlock: file %q does not expose descriptor", lockPath)
+		}
+		if err := syscall.Flock(int(fd), syscall.LOCK_EX|syscall.LOCK_NB); err != nil {
+			if errors.Is(err, syscall.EWOULDBLOCK) {
+				return nil, fmt.Errorf("dirlock: directory %q already in use", dir)
+			}
+			return nil, err
+		}
+		// Release unlinks LOCK while it still holds the flock. Make sure the inode we
+		// locked is still the one the path names; otherwise retry on the current file.
+		held, herr := f.Stat()
+		cur, cerr := fs.Stat(lockPath)
+		if herr == nil && cerr == nil && os.SameFile(held, cur) {
+			break
+		}
+		_ = f.Close()
+		f = nil
 	}
 	if err := f.Truncate(0); err == nil {
 		pid := os.Getpid()
@@ -69,18 +82,20 @@ func (l *DirLock) Release() error {
 		return nil
 	}
 	var firstErr error
+	// Unlink first, while the flock is still held: whoever locks the doomed inode later
+	// notices that the path no longer names it (see AcquireDirLock).
+	fs := vfs.Ensure(l.fs)
+	if err := fs.Remove(l.path); err != nil && !errors.Is(err, os.ErrNotExist) {
+		firstErr = err
+	}
 	if fd, ok := vfs.FileFD(l.file); ok {
-		if err := syscall.Flock(int(fd), syscall.LOCK_UN); err != nil {
+		if err := syscall.Flock(int(fd), syscall.LOCK_UN); err != nil && firstErr == nil {
 			firstErr = err
 		}
-	} else {
+	} else if firstErr == nil {
 		firstErr = fmt.Errorf("dirlock: file %q does not expose descriptor", l.path)
 	}
 	if err := l.file.Close(); err != nil && firstErr == nil {
-		firstErr = err
-	}
-	fs := vfs.Ensure(l.fs)
-	if err := fs.Remove(l.path); err != nil && !errors.Is(err, os.ErrNotExist) && firstErr == nil {
 		firstErr = err
 	}
 	l.file = nil
